@@ -15,6 +15,8 @@ let dispatchers : (string list -> string option) list = [
   C_rtte.dispatch;
   C_rx.dispatch;
   C_segs.dispatch;
+  C_tx.dispatch;
+  C_cubic.dispatch;
 ]
 
 let dispatch line =
